@@ -138,6 +138,105 @@ def pinned(mod, name: str) -> str:
     return lean
 
 
+class _Subst(ast.NodeTransformer):
+    """`self.x0` -> `self_x0`, `obj.x1` -> `obj_x1`, ... for the listed base names."""
+
+    def __init__(self, bases, rename=None):
+        self.bases = bases
+        self.rename = rename or {}
+
+    def visit_Attribute(self, node):
+        if isinstance(node.value, ast.Name) and node.value.id in self.bases:
+            name = f"{node.value.id}_{node.attr}"
+            return ast.copy_location(ast.Name(id=self.rename.get(name, name), ctx=ast.Load()), node)
+        return self.generic_visit(node)
+
+
+def _no_attr(node, what):
+    for x in ast.walk(node):
+        if isinstance(x, ast.Attribute):
+            raise P.Untranslatable(f"{what}: attribute access outside the subset: {ast.unparse(x)}")
+
+
+def _body(fn):
+    return [s for s in fn.body
+            if not (isinstance(s, ast.Expr) and isinstance(s.value, ast.Constant) and isinstance(s.value.value, str))]
+
+
+def _same(node, src: str) -> bool:
+    return ast.dump(node) == ast.dump(ast.parse(src).body[0])
+
+
+def plane_fragments(mod, known, maxcells: int) -> str:
+    """The straight-line arithmetic inside the methods of `Plane`:
+    the clamping of a box to the plane bounds (`_granges`), the cell-count test of `_cells`,
+    the skip condition of `find`."""
+    out = []
+    # --- _granges: everything before the final `return (drange(..), drange(..))`
+    fn = P.find_function(mod, "Plane._granges")
+    body = _body(fn)
+    bbox = fn.args.args[1].arg
+    if not _same(body[-1], "return (drange(x0, x1, self.gridsize), drange(y0, y1, self.gridsize))"):
+        raise P.Untranslatable("Plane._granges: the ranges are not drange(x0, x1, gridsize), drange(y0, y1, gridsize)")
+    stmts = [_Subst({"self"}).visit(s) for s in body[:-1]]
+    for st in stmts:
+        _no_attr(st, "Plane._granges")
+    src = (f"def plane_clamp(self_x0: float, self_y0: float, self_x1: float, self_y1: float, {bbox}: Rect) -> Rect:\n"
+           + "".join("    " + ast.unparse(st) + "\n" for st in stmts) + "    return (x0, y0, x1, y1)\n")
+    out.append(P.FuncTranslator(known, default_kind="rat").function(ast.parse(src).body[0]) + "\n")
+    # --- _getrange / _cells enumerate `for grid_y in yr: for grid_x in xr: (grid_x, grid_y)` (pinned)
+    fn = P.find_function(mod, "Plane._getrange")
+    if [ast.dump(x) for x in _body(fn)] != [ast.dump(x) for x in ast.parse(
+            "(xr, yr) = self._granges(bbox)\nfor grid_y in yr:\n    for grid_x in xr:\n        yield (grid_x, grid_y)\n").body]:
+        raise P.Untranslatable("Plane._getrange no longer enumerates (grid_x, grid_y) row by row")
+    # --- _cells: nx, ny and the test
+    fn = P.find_function(mod, "Plane._cells")
+    body = _body(fn)
+    if not (len(body) == 5 and _same(body[0], "(xr, yr) = self._granges(bbox)")
+            and _same(body[4], "return [(grid_x, grid_y) for grid_y in yr for grid_x in xr]")
+            and isinstance(body[3], ast.If) and not body[3].orelse and len(body[3].body) == 1
+            and _same(body[3].body[0], "return None")):
+        raise P.Untranslatable("Plane._cells: shape")
+    tr = P.FuncTranslator(known, default_kind="int")
+    for v in ("xr_start", "xr_stop", "yr_start", "yr_stop", "PLANE_MAXCELLS_I"):
+        tr.env[v] = "int"
+    lets = []
+    for st in body[1:3]:
+        st = _Subst({"self", "xr", "yr"}, {"self_MAXCELLS": "PLANE_MAXCELLS_I"}).visit(st)
+        _no_attr(st, "Plane._cells")
+        if not (isinstance(st, ast.Assign) and len(st.targets) == 1 and isinstance(st.targets[0], ast.Name)):
+            raise P.Untranslatable("Plane._cells: nx/ny")
+        lets.append(f"  let {st.targets[0].id} := {tr.expr(st.value, 'int')}\n")
+        tr.env[st.targets[0].id] = "int"
+    test = _Subst({"self", "xr", "yr"}, {"self_MAXCELLS": "PLANE_MAXCELLS_I"}).visit(body[3].test)
+    _no_attr(test, "Plane._cells")
+    out.append("def PLANE_MAXCELLS_I : Int := %d\n\n" % maxcells)
+    out.append("/-- `Plane._cells`: is the box filed in the overflow list (more than MAXCELLS cells)? -/\n"
+               "def plane_cells_over (xr_start xr_stop yr_start yr_stop : Int) : Bool :=\n"
+               + "".join(lets) + "  " + tr.cond(test) + "\n\n")
+    # --- find: the `continue` condition on the boxes
+    fn = P.find_function(mod, "Plane.find")
+    body = _body(fn)
+    bbox = fn.args.args[1].arg
+    if not (isinstance(body[0], ast.Assign) and _same(body[0], f"(x0, y0, x1, y1) = {bbox}")):
+        raise P.Untranslatable("Plane.find: query unpacking")
+    loops = [x for x in body if isinstance(x, ast.For)]
+    if len(loops) != 1 or not isinstance(loops[0].target, ast.Name):
+        raise P.Untranslatable("Plane.find: loop")
+    obj = loops[0].target.id
+    skips = [x for x in loops[0].body if isinstance(x, ast.If) and isinstance(x.test, ast.BoolOp)
+             and len(x.body) == 1 and isinstance(x.body[0], ast.Continue) and not x.orelse]
+    if len(skips) != 1:
+        raise P.Untranslatable("Plane.find: skip condition")
+    test = _Subst({obj}).visit(skips[0].test)
+    _no_attr(test, "Plane.find")
+    tr = P.FuncTranslator(known, default_kind="rat")
+    out.append("/-- `Plane.find`: the condition under which a candidate is skipped. -/\n"
+               f"def plane_find_skip ({obj}_x0 {obj}_y0 {obj}_x1 {obj}_y1 : Rat) ({bbox} : Rect) : Bool :=\n"
+               f"  let (x0, y0, x1, y1) := {bbox}\n  " + tr.cond(test) + "\n\n")
+    return "".join(out)
+
+
 def generate(lean_dir: str):
     mod = P.parse_file("pdfminer/utils.py")
     known = {}
@@ -162,6 +261,7 @@ def generate(lean_dir: str):
     if not (isinstance(mc, int) and not isinstance(mc, bool) and mc > 0):
         raise P.Untranslatable("Plane.MAXCELLS is not a positive int literal")
     out.append("def PLANE_MAXCELLS : Nat := %d\n\n" % mc)
+    out.append(plane_fragments(mod, known, mc))
     out.append("end PdfVerif.Gen.Utils\n")
     path = os.path.join(lean_dir, "PdfVerif", "Gen", "Utils.lean")
     P.write_if_changed(path, "".join(out))
